@@ -453,6 +453,18 @@ pub fn drive(args: &[String]) {
         let cfg = json!({"b": b, "nb": nb, "l": l, "hasher": bh.to_json(), "keys": keys});
         let cap = (b * nb) as u64;
         let mut steps: Vec<Value> = vec![];
+        // one scenario in three opens with the motif "content arrives by union only" (see cms.rs)
+        if sci % 3 == 2 && sci > 5 {
+            let sc0 = json!({"s2": false, "pat": [0]});
+            steps.push(json!({"obj": "b", "op": {"name":"ins","key": 0, "script": sc0}}));
+            steps.push(json!({"obj": "b", "op": {"name":"ins","key": 1, "script": sc0}}));
+            steps.push(json!({"obj": "a", "other": "b", "op": {"name":"union", "script": sc0}}));
+            steps.push(json!({"obj": "a", "op": {"name":"clear"}}));
+            steps.push(json!({"obj": "a", "op": {"name":"ins","key": 2, "script": sc0}}));
+            steps.push(json!({"obj": "a", "other": "b", "op": {"name":"union", "script": sc0}}));
+            steps.push(json!({"obj": "a", "op": {"name":"clear"}}));
+            steps.push(json!({"obj": "a", "other": "b", "op": {"name":"union", "script": sc0}}));
+        }
         let n_ops = (cap + 10 + rng.below(40)).min(150);
         for _ in 0..n_ops {
             let x = rng.below(100);
